@@ -2,6 +2,7 @@ import SqlObjVerif.Lemmas.Cache
 import SqlObjVerif.Lemmas.CacheXCull
 import SqlObjVerif.Lemmas.CacheXRep
 import SqlObjVerif.Lemmas.CacheXList
+import SqlObjVerif.Lemmas.GetXInv
 /-!
 # C04 — identity map: one live instance per row per connection on every access path
 
@@ -337,5 +338,428 @@ theorem C04_translated_dictrep_step (s : State) (op : Op) (h : DictInv s) : Dict
 /-- non-vacuity: the representation invariant holds initially -/
 example (cfg : Cfg) (c : Cls) : Rep (init cfg) c := by
   constructor <;> simp [init, emptyFactory, DictRep]
+
+/-! ## The CALLER layer IS the translated source too
+
+`vlib/extractors/pyget.py` translates, on every run, `SQLObject.get / _init / _SO_finishCreate / expire /
+__getstate__ / __setstate__ / _SO_fetchAlternateID / _SO_foreignKey`, the tail of `destroySelf`,
+`Iteration.next` and the methods of `CacheSet` into PyGet programs (`Extracted/PyGet.lean`); `Model/GetX.lean` RUNS
+them on a world `GW` around the hand model's state (`s`), with the keys of `CacheSet.caches` (`made`), the factory
+locks, the instance write locks, `sqlmeta.dirty`, and the select an `Iteration` runs.  A call of a `CacheFactory`
+method RUNS the PyCache program translated from cache.py (so these theorems compose with `C04_translated_*` above);
+the database is the model's table.  Interface assumptions: the header of `Model/GetX.lean`.
+`conn` is `None` or the (one) connection; `Vsr b` is a `selectResults` argument (`b`: a fetched row's columns,
+else `None`); `addMade made c` = `made` with class `c`'s factory created on first use. -/
+
+open SqlObjVerif.PyGet in
+/-- `SQLObject._init(id, connection, selectResults)`: sets `self.id` and a fresh write lock; without
+    `selectResults` it SELECTs the row and raises SQLObjectNotFound when it is not there -/
+theorem C04_translated_init_eq_model (w : GW) (h : Handle) (k : Id) (conn : Val) (hconn : conn = .none ∨ conn = Vconn)
+    (srb : Bool) :
+    initRowG w h (.key k) conn (Vsr srb) =
+      if srb || (w.s.rows (w.s.obj h).cls).contains k then
+        .ret { w with s := setObj w.s h { w.s.obj h with id := k }, wlock := upd w.wlock h false,
+                      dirty := upd w.dirty h false } .none
+      else .exc { w with s := setObj w.s h { w.s.obj h with id := k }, wlock := upd w.wlock h false } .notFound :=
+  initRowG_eq w h k conn hconn srb
+
+open SqlObjVerif.PyGet in
+/-- `SQLObject.get(id, connection, selectResults)`, exact outcome for ALL worlds (no invariant needed beyond the
+    hypotheses of the translated `CacheFactory.get`): a HIT returns the cached object, sends nothing, leaves every
+    lock free and (`selectResults` given, instance not dirty) clears `expired`; a MISS on an existing row builds
+    exactly one instance (`alloc`), registers it (`cache.put` = `insertEntry`) and releases the factory lock
+    (`finishPut`); a MISS on a missing row raises SQLObjectNotFound with the factory lock released again (the
+    `finally`), the caches as the lookup left them, and one unregistered instance -/
+theorem C04_translated_sqlobject_get_exact (w : GW) (c : Cls) (k : Id) (conn : Val)
+    (hconn : conn = .none ∨ conn = Vconn) (srb : Bool)
+    (hwf : w.WF) (hl : w.lock c = false) (hwl : ∀ h, w.wlock h = false)
+    (hfr : w.s.cfg.cullFraction ≠ 0) (hrep : Rep w.s c)
+    (hnc : w.s.cfg.doCache = false → (w.s.fac c).strong = [])
+    (hrow : srb = true → k ∈ w.s.rows c) :
+    getG w c k conn (Vsr srb) =
+      match lookupCache (tick w.s c) c k with
+      | (s1, some h) =>
+        .ret { w with s := if srb && !w.dirty h then setObj s1 h { s1.obj h with expired := false } else s1,
+                      made := addMade w.made c } (.obj h)
+      | (s1, none) =>
+        if k ∈ s1.rows c then
+          .ret { w with s := insertEntry (alloc s1 c k false) c k s1.n, made := addMade w.made c,
+                        wlock := upd w.wlock s1.n false, dirty := upd w.dirty s1.n false } (.obj s1.n)
+        else
+          .exc { w with s := alloc s1 c k false, made := addMade w.made c,
+                        wlock := upd w.wlock s1.n false, dirty := upd w.dirty s1.n false } .notFound :=
+  getG_eq w c k conn hconn srb hwf hl hwl hfr hrep hnc hrow
+
+open SqlObjVerif.PyGet in
+/-- `SQLObject.get` = the hand model's `getObj` (clean instances): same handle, and — once the caller holds what it
+    was handed — the same state; on a missing row SQLObjectNotFound with every factory, every lock and the table as in
+    the model's state (the one instance built on the way is garbage: no cache entry, no reference) -/
+theorem C04_translated_sqlobject_get_eq_model (w : GW) (c : Cls) (k : Id) (conn : Val)
+    (hconn : conn = .none ∨ conn = Vconn) (srb : Bool)
+    (hwf : w.WF) (hl : w.lock c = false) (hwl : ∀ h, w.wlock h = false) (hd : ∀ h, w.dirty h = false)
+    (hfr : w.s.cfg.cullFraction ≠ 0) (hrep : Rep w.s c)
+    (hnc : w.s.cfg.doCache = false → (w.s.fac c).strong = [])
+    (hrow : srb = true → k ∈ w.s.rows c) :
+    match getObj w.s c k srb with
+    | (s', some h) => ∃ W, getG w c k conn (Vsr srb) = .ret W (.obj h) ∧ holdS W.s h = s' ∧ W.lock = w.lock ∧
+        W.made = addMade w.made c ∧ (∀ x, W.wlock x = false) ∧ (∀ x, W.dirty x = false)
+    | (s', none) => ∃ W, getG w c k conn (Vsr srb) = .exc W .notFound ∧ W.lock = w.lock ∧
+        W.made = addMade w.made c ∧ W.s.fac = s'.fac ∧ W.s.rows = s'.rows ∧ W.s.cfg = s'.cfg ∧
+        W.s.n = s'.n + 1 ∧ ∀ x, x ≠ s'.n → W.s.obj x = s'.obj x :=
+  getG_model w c k conn hconn srb hwf hl hwl hd hfr hrep hnc hrow
+
+open SqlObjVerif.PyGet in
+/-- `_SO_finishCreate(id)` on the instance `cls(…)` just allocated = the model's `create` step (INSERT,
+    `cache.created(id, cls, self)`, `_init(id)`); a duplicate id raises and registers nothing -/
+theorem C04_translated_finishCreate_eq_model (w : GW) (c : Cls) (ko : Option Id) (hwf : w.WF) (hl : w.lock c = false)
+    (hfr : w.s.cfg.cullFraction ≠ 0) (hrep : Rep w.s c)
+    (hk : ahasKey (ko.getD (w.s.maxId c + 1)) (w.s.fac c).strong = false) :
+    finishCreateG (w.construct c) w.s.n (idArg ko) =
+      match step w.s (.create c ko) with
+      | (s', .obj _) => .ret { w.construct c with s := s', made := addMade w.made c } .none
+      | (_, _) => .exc (w.construct c) .duplicate :=
+  finishCreateG_model w c ko hwf hl hfr hrep hk
+
+open SqlObjVerif.PyGet in
+/-- the tail of `destroySelf()` (`_SO_delete`, `_obsolete = True`, `cache.expire(id, cls)`) = the model's `destroy` -/
+theorem C04_translated_destroy_tail_eq_model (w : GW) (h : Handle) (hu : usable w.s h = true) (hwf : w.WF)
+    (hl : w.lock (w.s.obj h).cls = false)
+    (hnc : w.s.cfg.doCache = false → (w.s.fac (w.s.obj h).cls).strong = [])
+    (hrel : ∀ e ∈ (w.s.fac (w.s.obj h).cls).strong, e.1 = (w.s.obj h).id → relOf w.s e.2 = false) :
+    destroyTailG w h = .ret { w with s := (step w.s (.destroy h)).1 } .none :=
+  destroyTailG_model w h hu hwf hl hnc hrel
+
+open SqlObjVerif.PyGet in
+/-- `inst.expire()` = the model's `expire` step; the write lock is free again afterwards -/
+theorem C04_translated_instance_expire_eq_model (w : GW) (h : Handle) (hu : usable w.s h = true) (hwf : w.WF)
+    (hl : w.lock (w.s.obj h).cls = false) (hwl : w.wlock h = false)
+    (hnc : w.s.cfg.doCache = false → (w.s.fac (w.s.obj h).cls).strong = [])
+    (hrel : ∀ e ∈ (w.s.fac (w.s.obj h).cls).strong, e.1 = (w.s.obj h).id → relOf w.s e.2 = false) :
+    expireG w h = .ret { w with s := (step w.s (.expire h)).1, dirty := upd w.dirty h false } .none :=
+  expireG_model w h hu hwf hl hwl hnc hrel
+
+open SqlObjVerif.PyGet in
+/-- `__getstate__()` returns the pickled state the model's `pickle` records, and changes nothing -/
+theorem C04_translated_getstate_eq_model (w : GW) (h : Handle) :
+    getstateG w h = .ret w (Vpickle (w.s.obj h).id (w.s.obj h).expired) :=
+  getstateG_eq w h
+
+open SqlObjVerif.PyGet in
+/-- `__setstate__(d)` on the instance `pickle` made = the model's `unpickle`: ValueError — nothing registered, no
+    factory or lock touched — when `cache.tryGet` finds an instance of the row, else `cache.created` -/
+theorem C04_translated_setstate_eq_model (w : GW) (c : Cls) (k : Id) (e : Bool) (hwf : w.WF) (hl : w.lock c = false)
+    (hfr : w.s.cfg.cullFraction ≠ 0) (hrep : Rep w.s c)
+    (hnc : w.s.cfg.doCache = false → (w.s.fac c).strong = [])
+    (hlt : ∀ x, Ent w.s c x → x.2 < w.s.n) :
+    setstateG (w.construct c) w.s.n (Vpickle k e) =
+      match tryGet w.s c k with
+      | some _ => .exc { w.construct c with s := alloc w.s c k e } .valueError
+      | none => .ret { w.construct c with s := insertEntry (tick (alloc w.s c k e) c) c k w.s.n,
+                                          made := addMade w.made c } .none :=
+  setstateG_model w c k e hwf hl hfr hrep hnc hlt
+
+open SqlObjVerif.PyGet in
+/-- `_SO_fetchAlternateID` (byAlternateID / unique index): NotFound when the query finds nothing, else
+    `cls.get(<id>, connection, selectResults=<the row>)` — the model's `look` -/
+theorem C04_translated_alternate_eq_model (w : GW) (c : Cls) (k : Id) (conn : Val) (idx : Option String)
+    (hconn : conn = .none ∨ conn = Vconn) :
+    fetchAlternateIDG w c k conn (strArg idx) =
+      if k ∈ w.s.rows c then getG w c k conn Vcols else .exc w .notFound :=
+  fetchAlternateIDG_eq w c k conn idx hconn
+
+open SqlObjVerif.PyGet in
+/-- `Iteration.next()`: StopIteration at the end of the cursor, else `sourceClass.get(id, selectResults=<columns>,
+    connection=dbconn)` for the next existing row (`get(id, connection=dbconn)` for a lazyColumns select) — one turn of
+    the model's `selectLoop` -/
+theorem C04_translated_iteration_eq_model (w : GW) (c : Cls) :
+    iterNextG w c =
+      match fetch (w.s.rows c) w.cursor with
+      | (none, rest) => .exc { w with cursor := rest } .stopIteration
+      | (some k, rest) => getG { w with cursor := rest } c k Vconn (Vsr (!w.lazyCols)) :=
+  iterNextG_eq w c
+
+open SqlObjVerif.PyGet in
+/-- the foreign-key getter `_SO_foreignKey(value, joinClass, None)`: `None` for NULL, else `joinClass.get(value)` —
+    the model's `fk` -/
+theorem C04_translated_foreignKey_eq_model (w : GW) (h : Handle) (tc : Cls) (t : Option Id) :
+    foreignKeyG w h (idArg t) tc .none =
+      match t with
+      | none => .ret w .none
+      | some k => getG w tc k .none .none :=
+  foreignKeyG_eq w h tc t
+
+open SqlObjVerif.PyGet in
+/-- `CacheSet.get(id, cls)`: the class's factory (created by the atomic `setdefault` on first use) runs the translated
+    `CacheFactory.get` -/
+theorem C04_translated_cacheSet_get_eq_model (w : GW) (c : Cls) (k : Id) (hwf : w.WF) (hl : w.lock c = false)
+    (hfr : w.s.cfg.cullFraction ≠ 0) (hrep : Rep w.s c) :
+    csCall w "get" [.key k, .cls c] =
+      .ret { w with s := (lookupCache (tick w.s c) c k).1, made := addMade w.made c,
+                    lock := upd w.lock c (lookupCache (tick w.s c) c k).2.isNone }
+        (optV (lookupCache (tick w.s c) c k).2) :=
+  csGet_eq w c k hwf hl hfr hrep
+
+open SqlObjVerif.PyGet in
+/-- `CacheSet.put / finishPut / created / expire / tryGet`: class-name keyed dispatch to the translated
+    `CacheFactory` method (`expire` / `tryGet` of a class without a factory: nothing / `None`) -/
+theorem C04_translated_cacheSet_methods_eq_model (w : GW) (c : Cls) (k : Id) (h : Handle) (hwf : w.WF) :
+    (c ∈ w.made → (∀ e ∈ (w.s.fac c).strong, e.1 = k → e.2 ≠ h → relOf w.s e.2 = false) →
+      csCall w "put" [.key k, .cls c, .obj h] = .ret { w with s := insertEntry w.s c k h } .none) ∧
+    (c ∈ w.made → w.lock c = true →
+      csCall w "finishPut" [.cls c] = .ret { w with lock := upd w.lock c false } .none) ∧
+    (w.lock c = false → w.s.cfg.cullFraction ≠ 0 → Rep w.s c →
+      (∀ e ∈ (w.s.fac c).strong, e.1 = k → e.2 ≠ h → relOf w.s e.2 = false) →
+      csCall w "created" [.key k, .cls c, .obj h] =
+        .ret { w with s := insertEntry (tick w.s c) c k h, made := addMade w.made c } .none) ∧
+    (w.lock c = false → (w.s.cfg.doCache = false → (w.s.fac c).strong = []) →
+      (∀ e ∈ (w.s.fac c).strong, e.1 = k → relOf w.s e.2 = false) →
+      csCall w "expire" [.key k, .cls c] = .ret { w with s := purge w.s c k } .none) ∧
+    csCall w "tryGet" [.key k, .cls c] = .ret w (optV (tryGet w.s c k)) :=
+  ⟨fun hc hrel => csPut_eq w c k h hc hrel, fun hc hl => csFinishPut_eq w c hc hl,
+   fun hl hfr hrep hrel => csCreated_eq w c k h hwf hl hfr hrep hrel,
+   fun hl hnc hrel => csExpire_eq w c k hwf hl hnc hrel, csTryGet_eq w c k hwf⟩
+
+open SqlObjVerif.PyGet in
+/-- per-class factories: whatever `get` / `created` / `put` / `expire` do for class `c`, the factory and the lock of
+    every other class `c'` — in particular an entry filed under the SAME id — stay as they are -/
+theorem C04_translated_cacheSet_dispatch (w : GW) (c c' : Cls) (k : Id) (h : Handle) (hne : c' ≠ c) (hwf : w.WF)
+    (hl : w.lock c = false) (hfr : w.s.cfg.cullFraction ≠ 0) (hrep : Rep w.s c)
+    (hnc : w.s.cfg.doCache = false → (w.s.fac c).strong = [])
+    (hk : ahasKey k (w.s.fac c).strong = false) :
+    (∃ W v, csCall w "get" [.key k, .cls c] = .ret W v ∧ W.s.fac c' = w.s.fac c' ∧ W.lock c' = w.lock c') ∧
+    (∃ W v, csCall w "created" [.key k, .cls c, .obj h] = .ret W v ∧ W.s.fac c' = w.s.fac c' ∧ W.lock c' = w.lock c') ∧
+    (c ∈ w.made → ∃ W v, csCall w "put" [.key k, .cls c, .obj h] = .ret W v ∧ W.s.fac c' = w.s.fac c' ∧ W.lock c' = w.lock c') ∧
+    (∃ W v, csCall w "expire" [.key k, .cls c] = .ret W v ∧ W.s.fac c' = w.s.fac c' ∧ W.lock c' = w.lock c') ∧
+    (csCall w "tryGet" [.key k, .cls c'] = .ret w (optV (tryGet w.s c' k))) :=
+  cacheSet_dispatch w c c' k h hne hwf hl hfr hrep hnc hk
+
+/-! ### the headline theorems, about the translated source
+
+`GInv w`: the model state inside world `w` satisfies the identity invariant `CInv` and `DictInv`, `CacheSet.caches`
+is consistent with it, no lock is held (one thread, between calls), instances are clean, `cullFraction ≠ 0`. -/
+
+open SqlObjVerif.PyGet in
+/-- `C04_identity` for the translated `get`: from any such world the translated code follows the model's `getObj`,
+    and — once the caller holds the result — the world satisfies `GInv` (hence `Identity`) again -/
+theorem C04_translated_identity (w : GW) (hg : GInv w) (c : Cls) (k : Id) (conn : Val)
+    (hconn : conn = .none ∨ conn = Vconn) (srb : Bool) (hrow : srb = true → k ∈ w.s.rows c) :
+    match getObj w.s c k srb with
+    | (s', some h) => ∃ W, getG w c k conn (Vsr srb) = .ret W (.obj h) ∧ holdS W.s h = s' ∧
+        GInv { W with s := s' } ∧ Identity s' ∧ Good s' c k h
+    | (s', none) => ∃ W, getG w c k conn (Vsr srb) = .exc W .notFound ∧ W.lock = w.lock ∧ W.s.fac = s'.fac ∧
+        W.s.rows = s'.rows ∧ k ∉ w.s.rows c := by
+  have := ginv_get w hg c k conn hconn srb hrow
+  generalize getObj w.s c k srb = r at this
+  obtain ⟨s', res⟩ := r
+  cases res with
+  | some h =>
+    obtain ⟨W, a, b, d, e⟩ := this
+    exact ⟨W, a, b, d, C04_identity_of_inv _ d.inv, e⟩
+  | none => exact this
+
+/-- the model's `getObj` finds the instance the application holds, with or without `selectResults` -/
+theorem C04_getObj_finds_held (s : State) (hi : CInv s) (h0 : Handle) (hn : h0 < s.n)
+    (hh : (s.obj h0).held = true) (ho : (s.obj h0).obsolete = false) (srb : Bool) :
+    (getObj s (s.obj h0).cls (s.obj h0).id srb).2 = some h0 := by
+  have hrow := (hi.ent _ _ (hi.hcached h0 hn (by simp) hh ho)).2.2.2.1
+  obtain ⟨g1, g2, g3, g4, g5⟩ := getObj_spec s (s.obj h0).cls (s.obj h0).id srb hi
+  have key : ∀ r, (getObj s (s.obj h0).cls (s.obj h0).id srb).2 = some r → r = h0 := by
+    intro r hr
+    obtain ⟨b1, b2, b3, b4, b5, b6⟩ := g4 r hr
+    obtain ⟨f1, f2, f3, f4⟩ := g2.obj h0 hn
+    have hn' := Nat.lt_of_lt_of_le hn g2.n
+    apply C04_identity_of_inv _ g1 r h0 ⟨b1, g1.hlive r b1 b4, Or.inl b4⟩
+      ⟨hn', g1.hlive h0 hn' (f4 hh), Or.inl (f4 hh)⟩ b5 (by rw [f3]; exact ho)
+    · rw [b2, f1]
+    · rw [b3, f2]
+  cases hr : (getObj s (s.obj h0).cls (s.obj h0).id srb).2 with
+  | none => exact absurd hrow (g5 hr)
+  | some r => rw [key r hr]
+
+open SqlObjVerif.PyGet in
+/-- `C04_get_returns_live` for the translated source, every access path: while the application holds a live,
+    not destroyed instance `h0` of row (c, k), the translated `get` (with or without `selectResults`, default or
+    explicit connection), `_SO_fetchAlternateID`, `Iteration.next` (next cursor row = k) and the foreign-key getter
+    all return THAT instance -/
+theorem C04_translated_get_returns_live (w : GW) (hg : GInv w) (h0 : Handle) (hn : h0 < w.s.n)
+    (hh : (w.s.obj h0).held = true) (ho : (w.s.obj h0).obsolete = false) (conn : Val)
+    (hconn : conn = .none ∨ conn = Vconn) :
+    (∀ srb, ∃ W, getG w (w.s.obj h0).cls (w.s.obj h0).id conn (Vsr srb) = .ret W (.obj h0)) ∧
+    (∀ idx : Option String, ∃ W, fetchAlternateIDG w (w.s.obj h0).cls (w.s.obj h0).id conn
+        (strArg idx) = .ret W (.obj h0)) ∧
+    (∀ rest, w.cursor = (w.s.obj h0).id :: rest → ∃ W, iterNextG w (w.s.obj h0).cls = .ret W (.obj h0)) ∧
+    (∀ h, ∃ W, foreignKeyG w h (idArg (some (w.s.obj h0).id)) (w.s.obj h0).cls .none = .ret W (.obj h0)) := by
+  have hrow : (w.s.obj h0).id ∈ w.s.rows (w.s.obj h0).cls :=
+    (hg.inv.ent _ _ (hg.inv.hcached h0 hn (by simp) hh ho)).2.2.2.1
+  have main : ∀ (w' : GW), w'.s = w.s → GInv w' → ∀ conn', (conn' = .none ∨ conn' = Vconn) → ∀ srb,
+      ∃ W, getG w' (w.s.obj h0).cls (w.s.obj h0).id conn' (Vsr srb) = .ret W (.obj h0) := by
+    intro w' hs hg' conn' hconn' srb
+    have := ginv_get w' hg' (w.s.obj h0).cls (w.s.obj h0).id conn' hconn' srb (fun _ => hs ▸ hrow)
+    have hf := C04_getObj_finds_held w.s hg.inv h0 hn hh ho srb
+    rw [hs] at this
+    generalize getObj w.s (w.s.obj h0).cls (w.s.obj h0).id srb = r at this hf
+    obtain ⟨s', res⟩ := r
+    simp only at hf
+    subst hf
+    obtain ⟨W, a, _⟩ := this
+    exact ⟨W, a⟩
+  refine ⟨main w rfl hg conn hconn, ?_, ?_, ?_⟩
+  · intro idx
+    rw [fetchAlternateIDG_eq w _ _ conn idx hconn, if_pos hrow]
+    exact main w rfl hg conn hconn true
+  · intro rest hc
+    rw [iterNextG_eq, hc]
+    have : (w.s.rows (w.s.obj h0).cls).contains (w.s.obj h0).id = true := by simpa using hrow
+    simp only [fetch, this, if_true]
+    exact main { w with cursor := rest } rfl ⟨hg.inv, hg.dict, hg.wf, hg.lock, hg.wlock, hg.clean, hg.frac⟩
+      Vconn (Or.inr rfl) _
+  · intro h
+    rw [foreignKeyG_eq]
+    exact main w rfl hg .none (Or.inl rfl) false
+
+open SqlObjVerif.PyGet in
+/-- `C04_deleted_never_returned` for the translated source: whatever the translated `get` hands out belongs to a row
+    that exists and was not destroyed; and after the translated tail of `destroySelf` on a held instance, the
+    translated `get` of that row raises SQLObjectNotFound -/
+theorem C04_translated_deleted_never_returned_partial (w : GW) (hg : GInv w) :
+    (∀ c k conn srb, (conn = Val.none ∨ conn = Vconn) → (srb = true → k ∈ w.s.rows c) →
+      ∀ W h, getG w c k conn (Vsr srb) = .ret W (.obj h) →
+        k ∈ (holdS W.s h).rows c ∧ ((holdS W.s h).obj h).obsolete = false ∧ ((holdS W.s h).obj h).id = k) ∧
+    (∀ h0, usable w.s h0 = true → (w.s.obj h0).obsolete = false → ∀ conn, (conn = Val.none ∨ conn = Vconn) →
+      ∃ W1, destroyTailG w h0 = .ret W1 .none ∧
+        ∃ W2, getG W1 (w.s.obj h0).cls (w.s.obj h0).id conn (Vsr false) = .exc W2 .notFound) := by
+  constructor
+  · intro c k conn srb hconn hrow W h hW
+    have := ginv_get w hg c k conn hconn srb hrow
+    generalize getObj w.s c k srb = r at this
+    obtain ⟨s', res⟩ := r
+    cases res with
+    | some h' =>
+      obtain ⟨W', a, b, _, g⟩ := this
+      rw [a] at hW
+      simp only [CallRes.ret.injEq, Val.obj.injEq] at hW
+      obtain ⟨rfl, rfl⟩ := hW
+      rw [b]
+      exact ⟨g.2.2.2.2.2, g.2.2.2.2.1, g.2.2.1⟩
+    | none =>
+      obtain ⟨W', a, _⟩ := this
+      rw [a] at hW; cases hW
+  · intro h0 hu ho conn hconn
+    have hu' := hu
+    simp only [usable, Bool.and_eq_true, decide_eq_true_eq] at hu'
+    have hrel := hrel_of_inv hg.inv hu'.1 hu'.2 ho
+    have e1 := destroyTailG_model w h0 hu hg.wf (hg.lock _) (fun hd => hg.inv.nocache hd _) hrel
+    refine ⟨_, e1, ?_⟩
+    obtain ⟨i1, _, _⟩ := step_spec w.s (.destroy h0) hg.inv (by simp [guard, ho])
+    have hd := dictInv_step hg.dict (.destroy h0)
+    have hfac : ∀ c', c' ∉ w.made → (step w.s (.destroy h0)).1.fac c' = emptyFactory := by
+      intro c' hc'
+      simp only [step, hu, if_true]
+      by_cases hcc : c' = (w.s.obj h0).cls
+      · subst hcc
+        rw [purge_eq]
+        simp [setFac, upd, (hg.wf _ hc').1, emptyFactory, aerase]
+      · rw [(local_purge _ (w.s.obj h0).cls (w.s.obj h0).id).fac c' hcc]
+        exact (hg.wf c' hc').1
+    have hcfg : (step w.s (.destroy h0)).1.cfg = w.s.cfg := by
+      simp only [step, hu, if_true]; exact (local_purge _ _ _).cfg
+    have hg1 : GInv { w with s := (step w.s (.destroy h0)).1 } :=
+      ⟨i1, hd, fun c' hc' => ⟨hfac c' hc', (hg.wf c' hc').2⟩, hg.lock, hg.wlock, hg.clean, by rw [hcfg]; exact hg.frac⟩
+    have := ginv_get _ hg1 (w.s.obj h0).cls (w.s.obj h0).id conn hconn false (by simp)
+    obtain ⟨g1, g2, g3, g4, g5⟩ := getObj_spec (step w.s (.destroy h0)).1 (w.s.obj h0).cls (w.s.obj h0).id false i1
+    have hgone : (w.s.obj h0).id ∉ (step w.s (.destroy h0)).1.rows (w.s.obj h0).cls := by
+      simp only [step, hu, if_true]
+      rw [(local_purge _ _ _).rows]
+      simp [upd]
+    generalize getObj (step w.s (.destroy h0)).1 (w.s.obj h0).cls (w.s.obj h0).id false = r at this g2 g4
+    obtain ⟨s', res⟩ := r
+    cases res with
+    | some h' =>
+      have := (g4 h' rfl).2.2.2.2.2
+      rw [g2.rows] at this
+      exact absurd this hgone
+    | none =>
+      obtain ⟨W2, a, _⟩ := this
+      exact ⟨W2, a⟩
+
+open SqlObjVerif.PyGet in
+/-- `C04_unpickle_no_dup` for the translated source: the translated `__setstate__` refuses (ValueError, nothing
+    registered) while the application holds a live instance of the row; when it succeeds for an existing row, the
+    world satisfies the invariant — hence `Identity`: no second live instance — again -/
+theorem C04_translated_unpickle_no_dup (w : GW) (hg : GInv w) (c : Cls) (k : Id) (e : Bool) :
+    (∀ h0, h0 < w.s.n → (w.s.obj h0).held = true → (w.s.obj h0).obsolete = false → (w.s.obj h0).cls = c →
+      (w.s.obj h0).id = k → ∃ W, setstateG (w.construct c) w.s.n (Vpickle k e) = .exc W .valueError ∧
+        W.s.fac = w.s.fac ∧ W.lock = w.lock ∧ W.made = w.made) ∧
+    (k ∈ w.s.rows c → ∀ W, setstateG (w.construct c) w.s.n (Vpickle k e) = .ret W .none →
+      CInv W.s ∧ Identity W.s ∧ Good W.s c k w.s.n) := by
+  have hrep := rep_of_inv hg.inv hg.dict c
+  have hm := setstateG_model w c k e hg.wf (hg.lock c) hg.frac hrep (fun hd => hg.inv.nocache hd c)
+    (fun x hx => (hg.inv.ent c x hx).1)
+  constructor
+  · intro h0 hn hh ho hc hk
+    have e0 := hg.inv.hcached h0 hn (by simp) hh ho
+    rw [hc, hk] at e0
+    have hdead := hg.inv.hlive h0 hn hh
+    have ht : tryGet w.s c k = some h0 := by
+      unfold tryGet
+      rcases e0 with a | a
+      · have hdc : w.s.cfg.doCache = true := by
+          cases h' : w.s.cfg.doCache with
+          | true => rfl
+          | false => rw [hg.inv.nocache h' c] at a; cases a
+        have hsg := aget_eq_some_of_fun (hg.inv.funS c) a
+        have hft : Extracted.Cache.tryGetFallsThrough = true := rfl
+        cases hg' : aget k (w.s.fac c).weak with
+        | none => simp [hdc, hsg, hg']
+        | some x =>
+          have := hg.inv.disj c k h0 x a (aget_some_mem hg')
+          simp [this, hft, hdc, hsg, hg']
+      · simp only [aget_eq_some_of_fun (hg.inv.funW c) a, hdead, Bool.false_eq_true, if_false]
+    rw [ht] at hm
+    exact ⟨_, hm, rfl, rfl, rfl⟩
+  · intro hrow W hW
+    cases ht : tryGet w.s c k with
+    | some x => rw [ht] at hm; rw [hm] at hW; cases hW
+    | none =>
+      rw [ht] at hm
+      rw [hm] at hW
+      simp only [CallRes.ret.injEq, and_true] at hW
+      subst hW
+      simp only
+      have hs : ∀ v, (k, v) ∉ (w.s.fac c).strong := by
+        intro v hv
+        have hk := tryGet_none_nokey w.s c k (fun hd => hg.inv.nocache hd c) ht
+        have : ahasKey k (w.s.fac c).strong = true := (ahasKey_iff k _).2 ⟨v, hv⟩
+        rw [hk] at this; cases this
+      have hw : ∀ v, (k, v) ∈ (w.s.fac c).weak → (w.s.obj v).dead = true := by
+        intro v hv
+        have hgv := aget_eq_some_of_fun (hg.inv.funW c) hv
+        unfold tryGet at ht
+        simp only [hgv] at ht
+        cases hd : (w.s.obj v).dead with
+        | true => rfl
+        | false => simp [hd] at ht
+      have := inv_register w.s c k e hg.inv hrow hs hw
+      exact ⟨this.1, C04_identity_of_inv _ this.1, this.2⟩
+
+open SqlObjVerif.PyGet in
+/-- the open finding "C04:pickle-then-destroy-then-unpickle" on the translated source: the full statement
+    "a successful `__setstate__` registers an instance of a row that exists" is FALSE — `__setstate__` never looks at
+    the database; witness: the empty world, pickled state (class 0, id 1) -/
+theorem C04_translated_setstate_deleted_row_full_FALSE :
+    ¬ ∀ (w : GW) (c : Cls) (k : Id) (e : Bool), GInv w →
+      ∀ W, setstateG (w.construct c) w.s.n (Vpickle k e) = .ret W .none → k ∈ W.s.rows c := by
+  intro H
+  let w0 : GW := { s := init (Cfg.default true), made := [], lock := fun _ => false, wlock := fun _ => false,
+                   dirty := fun _ => false, falsy := fun _ => false, lazyCols := false, cursor := [] }
+  have hg : GInv w0 := ⟨inv_init _, dictInv_init _, fun _ _ => ⟨rfl, rfl⟩, fun _ => rfl, fun _ => rfl, fun _ => rfl,
+    by decide⟩
+  have hrep := rep_of_inv hg.inv hg.dict 0
+  have hm := setstateG_model w0 0 1 false hg.wf rfl hg.frac hrep (fun hd => hg.inv.nocache hd 0)
+    (fun x hx => (hg.inv.ent 0 x hx).1)
+  have ht : tryGet w0.s 0 1 = none := by decide
+  rw [ht] at hm
+  have := H w0 0 1 false hg _ hm
+  simp [w0, init, alloc, insertEntry_rows, tick_rows] at this
 
 end SqlObjVerif.Cache
